@@ -389,4 +389,139 @@ theorem Aln.revComp_twice (cx : Ctx) (h : Cells) (a : Aln) (n : Nat) (hw : ColsW
   rw [Aln.rowLetters_eq, hm, Aln.rowLetters_eq]
   rfl
 
+/-! ### Delete -/
+
+theorem arr_writeList_same {α : Type} (h : Heap α) (s : Slice) (xs : List α) (ha : s.arr < h.arrays.length) :
+    (h.writeList s xs).arr s.arr
+      = (h.arr s.arr).take s.off ++ xs.take (min s.len xs.length) ++ (h.arr s.arr).drop (s.off + min s.len xs.length) := by
+  simp only [Heap.writeList]
+  exact Heap.arr_modify_same h s.arr _ ha
+
+theorem arr_writeList_other {α : Type} (h : Heap α) (s : Slice) (xs : List α) (b : Nat) (hne : s.arr ≠ b) :
+    (h.writeList s xs).arr b = h.arr b := by
+  simp only [Heap.writeList]
+  exact Heap.arr_modify_other h s.arr b _ hne
+
+theorem length_writeList {α : Type} (h : Heap α) (s : Slice) (xs : List α) :
+    (h.writeList s xs).arrays.length = h.arrays.length := by
+  simp [Heap.writeList]
+
+theorem del_list {α : Type} (A : List α) (off n i : Nat) (hi : i < n) (hA : off + n ≤ A.length) :
+    ((A.take (off + i) ++ ((A.drop (off + (i + 1))).take (n - (i + 1))) ++ A.drop (off + i + (n - (i + 1)))).drop off).take (i + (n - (i + 1)))
+      = ((A.drop off).take n).eraseIdx i := by
+  rw [List.eraseIdx_eq_take_drop_succ]
+  apply List.ext_getElem?
+  intro k
+  by_cases hk : k < i + (n - (i + 1))
+  · rw [List.getElem?_take_of_lt hk, List.getElem?_drop]
+    by_cases hki : k < i
+    · rw [List.append_assoc, List.getElem?_append_left (by simp; omega), List.getElem?_take_of_lt (by omega)]
+      rw [List.getElem?_append_left (by simp; omega), List.getElem?_take_of_lt hki,
+          List.getElem?_take_of_lt (by omega), List.getElem?_drop]
+    · rw [List.getElem?_append_left (by simp; omega), List.getElem?_append_right (by simp; omega)]
+      rw [List.getElem?_append_right (by simp; omega)]
+      simp only [List.length_take, List.length_drop]
+      rw [List.getElem?_take_of_lt (by omega), List.getElem?_drop, List.getElem?_drop,
+          List.getElem?_take_of_lt (by omega), List.getElem?_drop]
+      congr 1; omega
+  · rw [List.getElem?_eq_none_iff.mpr (by simp; omega), List.getElem?_eq_none_iff.mpr (by simp; omega)]
+
+/-- one column of `Delete(i)`: `c[:i+copy(c[i:], c[i+1:])]` reads as the column without entry `i` -/
+theorem delCol_spec (h : Cells) (n : Nat) (c : Slice) (i : Nat) (hv : ColValid h n c) (hi : i < n)
+    (hcap : c.len ≤ c.cap) :
+    (Aln.delCol h c i).1.read (Aln.delCol h c i).2 = (h.read c).eraseIdx i ∧
+    (Aln.delCol h c i).2.arr = c.arr ∧ (Aln.delCol h c i).2.len = n - 1 ∧
+    (Aln.delCol h c i).2.off = c.off ∧
+    (∀ b, b ≠ c.arr → (Aln.delCol h c i).1.arr b = h.arr b) ∧
+    (Aln.delCol h c i).1.arrays.length = h.arrays.length ∧
+    ((Aln.delCol h c i).1.arr c.arr).length = (h.arr c.arr).length := by
+  have hlen := hv.2.2
+  have harr := hv.2.1
+  have s1 : c.slice i c.len = some ⟨c.arr, c.off + i, c.len - i, c.cap - i⟩ := by
+    simp only [Slice.slice]; rw [if_pos ⟨by omega, hcap⟩]
+  have s2 : c.slice (i + 1) c.len = some ⟨c.arr, c.off + (i + 1), c.len - (i + 1), c.cap - (i + 1)⟩ := by
+    simp only [Slice.slice]; rw [if_pos ⟨by omega, hcap⟩]
+  have hsrc : (h.read ⟨c.arr, c.off + (i + 1), c.len - (i + 1), c.cap - (i + 1)⟩).length = c.len - (i + 1) := by
+    simp only [Heap.read, List.length_take, List.length_drop]; omega
+  have hmin : min (c.len - i) (c.len - (i + 1)) = c.len - (i + 1) := by omega
+  have hw := arr_writeList_same h ⟨c.arr, c.off + i, c.len - i, c.cap - i⟩
+    (h.read ⟨c.arr, c.off + (i + 1), c.len - (i + 1), c.cap - (i + 1)⟩) hv.1
+  simp only [hsrc, hmin] at hw
+  have hdel : Aln.delCol h c i =
+      (h.writeList ⟨c.arr, c.off + i, c.len - i, c.cap - i⟩
+          (h.read ⟨c.arr, c.off + (i + 1), c.len - (i + 1), c.cap - (i + 1)⟩),
+       { c with len := i + (c.len - (i + 1)) }) := by
+    simp only [Aln.delCol, s1, s2, Heap.copy, hmin]
+  rw [hdel]
+  refine ⟨?_, rfl, by simp only; omega, rfl, ?_, ?_, ?_⟩
+  · have hw' : (h.writeList ⟨c.arr, c.off + i, c.len - i, c.cap - i⟩
+          (h.read ⟨c.arr, c.off + (i + 1), c.len - (i + 1), c.cap - (i + 1)⟩)).arr c.arr
+        = (h.arr c.arr).take (c.off + i) ++ (((h.arr c.arr).drop (c.off + (i + 1))).take (c.len - (i + 1)))
+          ++ (h.arr c.arr).drop (c.off + i + (c.len - (i + 1))) := by
+      rw [hw]
+      congr 2
+      rw [List.take_of_length_le (by rw [hsrc]; exact Nat.le_refl _)]
+      rfl
+    show (((h.writeList ⟨c.arr, c.off + i, c.len - i, c.cap - i⟩
+          (h.read ⟨c.arr, c.off + (i + 1), c.len - (i + 1), c.cap - (i + 1)⟩)).arr c.arr).drop c.off).take
+            (i + (c.len - (i + 1))) = (((h.arr c.arr).drop c.off).take c.len).eraseIdx i
+    rw [hw']
+    exact del_list (h.arr c.arr) c.off c.len i (by omega) harr
+  · intro b hb
+    exact arr_writeList_other _ _ _ _ (Ne.symm hb)
+  · exact length_writeList _ _ _
+  · rw [hw]
+    simp only [List.length_append, List.length_take, List.length_drop, hsrc]
+    omega
+
+/-- the loop of `Delete(i)` over the columns -/
+def delFold (i : Nat) (cols : List Slice) (acc : Cells × List Slice) : Cells × List Slice :=
+  cols.foldl (fun (acc : Cells × List Slice) c =>
+    ((Aln.delCol acc.1 c i).1, acc.2 ++ [(Aln.delCol acc.1 c i).2])) acc
+
+theorem Aln.delete_eq (h : Cells) (a : Aln) (i : Nat) :
+    a.delete h i = ((delFold i a.cols (h, [])).1,
+      { a with cols := (delFold i a.cols (h, [])).2, subs := a.subs.eraseIdx i }) := rfl
+
+theorem delFold_spec (i n : Nat) (hi : i < n) : ∀ (cols : List Slice) (h : Cells) (acc : List Slice),
+    ColsWF h n cols → (∀ c ∈ cols, c.len ≤ c.cap) →
+    ∃ cols', (delFold i cols (h, acc)).2 = acc ++ cols' ∧
+      All2 (fun c c' => (delFold i cols (h, acc)).1.read c' = (h.read c).eraseIdx i ∧
+          c'.arr = c.arr ∧ c'.len = n - 1) cols cols' ∧
+      (∀ b, (∀ c ∈ cols, c.arr ≠ b) → (delFold i cols (h, acc)).1.arr b = h.arr b) ∧
+      (delFold i cols (h, acc)).1.arrays.length = h.arrays.length := by
+  intro cols
+  induction cols with
+  | nil => intro h acc _ _; exact ⟨[], by simp [delFold], .nil, fun _ _ => rfl, rfl⟩
+  | cons c cs ih =>
+    intro h acc hw hcap
+    have hvc := hw.1 c List.mem_cons_self
+    have hpw := List.pairwise_cons.mp hw.2
+    obtain ⟨r1, r2, r3, _, r5, r6, r7⟩ := delCol_spec h n c i hvc hi (hcap c List.mem_cons_self)
+    have hw' : ColsWF (Aln.delCol h c i).1 n cs := by
+      refine ⟨fun x hx => ?_, hpw.2⟩
+      have hxv := hw.1 x (List.mem_cons_of_mem _ hx)
+      have hne : x.arr ≠ c.arr := fun e => hpw.1 x hx e.symm
+      exact ⟨by rw [r6]; exact hxv.1, by rw [r5 _ hne]; exact hxv.2.1, hxv.2.2⟩
+    obtain ⟨cols', h2, hall, hframe, hsize⟩ := ih (Aln.delCol h c i).1 (acc ++ [(Aln.delCol h c i).2]) hw'
+      (fun x hx => hcap x (List.mem_cons_of_mem _ hx))
+    have hfold : delFold i (c :: cs) (h, acc)
+        = delFold i cs ((Aln.delCol h c i).1, acc ++ [(Aln.delCol h c i).2]) := rfl
+    rw [hfold]
+    refine ⟨(Aln.delCol h c i).2 :: cols', by rw [h2]; simp, .cons ⟨?_, r2, r3⟩ ?_, ?_, by rw [hsize, r6]⟩
+    · have hk : (delFold i cs ((Aln.delCol h c i).1, acc ++ [(Aln.delCol h c i).2])).1.arr (Aln.delCol h c i).2.arr
+          = (Aln.delCol h c i).1.arr (Aln.delCol h c i).2.arr := by
+        apply hframe
+        intro x hx
+        rw [r2]
+        exact fun e => hpw.1 x hx e.symm
+      rw [read_congr_arr _ _ _ hk]; exact r1
+    · refine hall.imp_mem fun x x' hx hxx => ⟨?_, hxx.2⟩
+      rw [hxx.1]
+      have hne : x.arr ≠ c.arr := fun e => hpw.1 x hx e.symm
+      rw [read_congr_arr _ _ _ (r5 _ hne)]
+    · intro b hb
+      rw [hframe b (fun x hx => hb x (List.mem_cons_of_mem _ hx)),
+          r5 b (Ne.symm (hb c List.mem_cons_self))]
+
 end Biogo.Containers
